@@ -1979,6 +1979,10 @@ func (interp *Interpreter) cfg(root *node, sc *scope, importPath, pkgName string
 				}
 			}
 			returnSig := sc.def.child[2]
+			if c := n.child; len(c) == 1 && isCall(c[0]) && c[0].child[0].typ.numOut() > sc.def.typ.numOut() {
+				err = n.cfgErrorf("too many arguments to return")
+				break
+			}
 			if mustReturnValue(returnSig) {
 				nret := len(n.child)
 				if nret == 1 && isCall(n.child[0]) {
